@@ -54,6 +54,7 @@ CLAIMED = {
         text="Lean 4 theorems for every well-formed type: limited_exact (for EVERY depth limit D and every target whose callbacks do not panic, polling yields, in order and once each, one item per leaf of the type cut off at depth D — depth_limited_items: exactly the leaves of depth <= D and the internal nodes at depth D — as the node with the transcoded target, or Err(depth) where the target refused the key at that depth; then None for ever; at most D+2 loop passes per call, no panic site); rooted_exact (iteration rooted at the node any key denotes = the leaves at or below it, by simulation with the subtree's iterator); full_depth_exact; exact_size_remaining; fused; targets_do_not_panic ((), index arrays of any capacity). Every run iterates every corpus type for every depth limit, every (sampled) node as root in several key representations, index/path capacities from 0 to sufficient, polling past the end."
              " source_next_is_model: one pass through the loop of NodeIter::next as TRANSLATED from iter.rs on every run (statement-level Rust-subset translator, the two transcode calls as parameters) equals the model's IterSt.step for every type, target, depth limit and state; NodeIter::default likewise."
              ' rooted_limited_exact: root() analysed for EVERY state length D; the rooted iterator yields exactly the subtree cut off at depth D - |root| (capacity errors as Err(depth)), lifted by the root depth, then None for ever.'
+             " source_iteration_is_model / source_nodes_enumerate_leaves: the translated loop RUN AS WRITTEN (body iterated until it returns) equals IterSt.next, n calls equal IterSt.poll, the translated ExactSize around it equals exactCounts; end to end the translated NodeIter::default() polled n times yields exactly the first n leaves."
              " source_root_is_model: NodeIter::root as TRANSLATED from iter.rs equals the model's withRoot for an ARBITRARY previous iterator state (finding F6, fixed in 7b5905b: re-rooting a used iterator skipped leaves); every run re-roots used and already rooted iterators (H<pre>;<root>;... histories)."
              " source_exact_size_is_model: ExactSize::next over any inner iterator and NodeIter::exact_size as TRANSLATED from iter.rs (debug profile) equal the model's exactCounts and the driver's panic conditions.",
         note="The transcoding calls inside NodeIter::next are parameters of the translated loop body (tied to the model's transcoding by hypothesis).",
